@@ -18,6 +18,28 @@ CHECKS = {
    technique='contract-based deductive verification: ast->z3 VC generation on the real functions + bounded runtime contracts (labelled)',
    design_ref='DESIGN.md 5 C02'),
 }
+CHECKS['C01'] = dict(
+   category='proof',
+   text='Closure is proved as lemmas over two machine-checked contracts on the real code: the strongest postcondition of '
+        'discover_field_constraints (what discovery returns) implies the iff-postcondition of each verifier (the documented '
+        'meaning), for every column view; discovery and all ten verifiers are shown never to raise on well-formed views; the '
+        'statistic cache is shown to describe the frame it was built from. The pandas calculator, the .tdda file round trip, '
+        'repair and detection end to end are covered by the bounded layer (labelled) on enumerated frames of every column family.',
+   note='Trusted: A-calc (audited on real pandas per run), A-card, find_rexes covers its values (= C03, imported), FP-REAL, '
+        'pyvc encoding, z3/cvc5. Bounded: frames up to 3 (quick) / 4 (thorough) rows per family pool + seeded columns to 30 rows.',
+   technique='contract-based deductive verification (ast->z3 VCs on real functions, closure lemmas over contracts) + bounded runtime contracts (labelled)',
+   design_ref='DESIGN.md 5 C01')
+CHECKS['C07'] = dict(
+   category='proof',
+   text='discover_field_constraints of the real baseconstraints.py is executed symbolically on all paths against the strongest '
+        'postcondition written from the property text (one clause per kind: exact extremes attained, null-count thresholds 0/1, '
+        '1..20 categories, strongest sign class, no_duplicates iff >1 distinct non-real values, nothing for absent data); the '
+        'calculators enter through assumed contracts audited on real pandas frames by the bounded layer.',
+   note='Trusted: A-calc incl. calc_unique_values (sorted distinct non-null values), A-card, FP-REAL, pyvc encoding, z3/cvc5. '
+        'SQLite aggregates are audited under C08.',
+   technique='contract-based deductive verification: strongest-postcondition proof by ast->z3 VC generation + bounded audit of assumed contracts',
+   design_ref='DESIGN.md 5 C07')
+
 NA_REASON = 'check under construction in this session (see DESIGN.md 8, build order)'
 
 def main():
